@@ -1,56 +1,69 @@
 """Contracts of someip.sd.TimedStore (shared by C05, C06, C09), as postcondition
-obligations on each operation, over an event-loop model with a symbolic clock.
+obligations on each operation, over the event-loop model with a symbolic clock.
 
-The store content is BOUNDED IN SHAPE: besides the entry the operation is about (present
-with a timer, present with the infinite TTL, or absent) it holds up to one other entry
-under the same address and up to one entry under another address, each optional; keys,
-addresses, TTLs, deadlines and the clock are symbolic.
+The store holds ARBITRARILY MANY entries: it is a dict with unbounded contents whose
+entries are materialised when an operation (or the harness) first looks at them
+(vc.lazy_dict).  Every entry that exists satisfies the store invariant by construction: its
+handle is None (infinite TTL) or a live timer of the loop carrying _expired(addr, key).
+What an operation does not touch is untouched by construction; what it iterates over is
+verified for one arbitrary element (loop contracts).
 """
 import logging
 
 import someip.sd as SD
 from contracts import looplib as LL
-from contracts.common import gen_addr
 
 TTL_FOREVER = 0xFFFFFF
 
 
 class World:
-    """a TimedStore with arbitrary (bounded-shape) contents on a fresh loop model, plus the
-    bookkeeping a harness needs to state postconditions"""
-
     def __init__(self, vc, name="w"):
         self.vc = vc
+        self.name = name
         self.loop = vc.install_loop(LL.FakeLoop(vc.real(name + ".now", 0)))
         self.events = []  # notifications in the order they are delivered
         self.ts = SD.TimedStore(logging.getLogger("verif"))
-        self.A = gen_addr(vc, name + ".A")
-        self.B = gen_addr(vc, name + ".B")
+        self.ts.store = vc.lazy_dict(name + ".store", self.gen_inner, self.gen_addr, default=dict)
+        self.A = vc.opaque(name + ".A", "addr")
+        self.B = vc.opaque(name + ".B", "addr")
         vc.assume(self.A != self.B)
         self.k0 = vc.opaque(name + ".k0", "key")
         self.k1 = vc.opaque(name + ".k1", "key")
         vc.assume(self.k0 != self.k1)
-        self.slots = {}  # (addr, key) -> None | ("forever", None) | ("timer", handle)
-        self.populate(name + ".A_k0", self.A, self.k0, ("absent", "timer", "forever"))
-        self.populate(name + ".A_k1", self.A, self.k1, ("absent", "timer", "forever"))
-        self.populate(name + ".B_k0", self.B, self.k0, ("absent", "timer"))
+        # the entries the obligations talk about; (X, kx) is an ARBITRARY entry: whatever is
+        # proved about it holds for every entry of the store
+        self.X = vc.opaque(name + ".X", "addr")
+        self.kx = vc.opaque(name + ".kx", "key")
+        self.slots = {}
+        for addr, key in ((self.A, self.k0), (self.A, self.k1), (self.B, self.k0), (self.X, self.kx)):
+            known = False
+            for s in self.slots:
+                if s[0] == addr and s[1] == key:
+                    known = True
+            if not known:
+                self.slots[(addr, key)] = self.state(addr, key)
+
+    # ---- generators of the unbounded contents
+    def gen_addr(self, vc, name):
+        return vc.opaque(name, "addr")
+
+    def gen_key(self, vc, name):
+        return vc.opaque(name, "key")
+
+    def gen_inner(self, vc, name, addr):
+        def gen_entry(vc2, name2, key):
+            if vc2.choice(name2 + ".kind", ("timer", "forever")) == "forever":
+                return (self.on_expired, None)
+            h = self.loop.call_later(vc2.real(name2 + ".remaining", 0), self.ts._expired, addr, key)
+            return (self.on_expired, h)
+
+        return vc.lazy_dict(name + ".entries", gen_entry, self.gen_key)
 
     def on_new(self, entry, addr):
         self.events.append(("new", entry, addr))
 
     def on_expired(self, entry, addr):
         self.events.append(("expired", entry, addr))
-
-    def populate(self, name, addr, key, kinds):
-        kind = self.vc.choice(name, kinds)
-        if kind == "absent":
-            self.slots[(addr, key)] = None
-            return
-        handle = None
-        if kind == "timer":
-            handle = self.loop.call_later(self.vc.real(name + ".remaining", 0), self.ts._expired, addr, key)
-        self.ts.store[addr][key] = (self.on_expired, handle)
-        self.slots[(addr, key)] = (kind, handle)
 
     # ---- observations
     def present(self, addr, key):
@@ -59,11 +72,16 @@ class World:
     def handle_of(self, addr, key):
         return self.ts.store[addr][key][1]
 
-    def count_entries(self):
-        return sum([len(d) for d in self.ts.store.values()])
+    def state(self, addr, key):
+        """None if absent, else ("timer"|"forever", handle)"""
+        if not self.present(addr, key):
+            return None
+        h = self.handle_of(addr, key)
+        return ("forever", None) if h is None else ("timer", h)
 
     def check_untouched(self, label, skip):
-        """frame: every slot not in `skip` is exactly as it was, its timer still armed"""
+        """frame: every slot not in `skip` -- in particular the arbitrary one -- is exactly
+        as it was, its timer still armed"""
         vc = self.vc
         for slot, st in self.slots.items():
             if slot in skip:
@@ -78,12 +96,15 @@ class World:
                     if st[1] is not None:
                         vc.check(not st[1].cancelled_, label + ".frame.timer_not_cancelled")
 
-    def check_invariant(self, label):
-        """TS-INV: every live timer of the loop carries _expired(addr, key) for an entry
-        that is present and holds exactly that handle (so a stale timer cannot exist);
-        the number of entries matches the slots known to the harness (no stray entry)"""
+    def check_invariant(self, label, skip_addr=None):
+        """store invariant: every live timer the loop knows of carries _expired(addr, key)
+        for an entry that is present and holds exactly that handle (a stale timer cannot
+        exist).  skip_addr: an address whose entries are being removed one by one by a loop
+        that is verified for one arbitrary element (their timers are the loop's business)"""
         vc = self.vc
         for h in self.loop.live_timers():
+            if skip_addr is not None and len(h.args) == 2 and h.args[0] == skip_addr:
+                continue
             ok = h.callback == self.ts._expired and len(h.args) == 2 and self.present(h.args[0], h.args[1])
             vc.check(ok, label + ".inv.live_timer_belongs_to_a_present_entry")
             if ok:
@@ -94,12 +115,12 @@ def ob_refresh(vc):
     """refresh(ttl, addr, key, new, expired) on an arbitrary store: the entry is present
     afterwards with `expired` as callback; its timer is armed for exactly now + ttl, or there
     is none for the infinite TTL; the previous timer is cancelled; `new` is called exactly
-    once, immediately, iff the entry was absent; nothing is deferred; nothing else changes"""
+    once, immediately, iff the entry was absent; nothing is deferred; no other entry changes"""
     w = World(vc)
     ttl = vc.int("ttl", 0, TTL_FOREVER)
     before = w.slots[(w.A, w.k0)]
     n_timers = len(w.loop.timers)
-    w.ts.refresh(ttl, w.A, w.k0, w.on_new, w.on_expired)
+    vc.body(SD.TimedStore.refresh)(w.ts, ttl, w.A, w.k0, w.on_new, w.on_expired)
     vc.check(w.present(w.A, w.k0), "refresh.entry_present")
     if w.present(w.A, w.k0):
         cb, h = w.ts.store[w.A][w.k0]
@@ -139,7 +160,7 @@ def ob_refresh_rejected(vc):
         raise SD.NakSubscription()
 
     n_timers = len(w.loop.timers)
-    o = vc.outcome(w.ts.refresh, ttl, w.A, w.k0, reject, w.on_expired)
+    o = vc.outcome(vc.body(SD.TimedStore.refresh), w.ts, ttl, w.A, w.k0, reject, w.on_expired)
     vc.check(vc.is_exc(o, SD.NakSubscription), "refresh.rejection_propagates")
     vc.check(not w.present(w.A, w.k0), "refresh.rejected_entry_not_recorded")
     vc.check_eq(len(w.loop.timers), n_timers, "refresh.rejected_entry_arms_no_timer")
@@ -152,7 +173,7 @@ def ob_stop(vc):
     callback called exactly once, immediately; an absent entry causes nothing"""
     w = World(vc)
     before = w.slots[(w.A, w.k0)]
-    w.ts.stop(w.A, w.k0)
+    vc.body(SD.TimedStore.stop)(w.ts, w.A, w.k0)
     vc.check(not w.present(w.A, w.k0), "stop.entry_absent_afterwards")
     if before is None:
         vc.cover("absent")
@@ -169,7 +190,7 @@ def ob_stop(vc):
 
 def ob_expired(vc):
     """the timer of an entry fires: the entry is removed and reported exactly once, before
-    anything else can run (nothing deferred); other entries and their timers are untouched;
+    anything else can run (nothing deferred); every other entry and its timer is untouched;
     under the store invariant the timer always finds its entry"""
     w = World(vc)
     st = w.slots[(w.A, w.k0)]
@@ -182,54 +203,86 @@ def ob_expired(vc):
     vc.check_eq(w.loop.now, st[1].when, "expired.fires_at_its_deadline")
     w.check_untouched("expired", [(w.A, w.k0)])
     w.check_invariant("expired")
-    # a timer fires at most once and never after it was cancelled
     vc.check(not w.loop.fire(st[1]), "expired.fires_at_most_once")
 
 
+def _saa_head(vc, v, entering):
+    vc.stash("saa.entering", entering)
+    if entering:
+        vc.stash("saa.element", (v["entry"], v["callback"], v["handle"]))
+
+
+def _sa_head(vc, v, entering):
+    vc.stash("sa.entering", entering)
+    if entering:
+        vc.stash("sa.addr", v["addr"])
+
+
+LOOPS = {
+    ("someip.sd.TimedStore.stop_all_for_address", 0): {"head": _saa_head},
+    ("someip.sd.TimedStore.stop_all", 0): {"head": _sa_head},
+}
+
+
 def ob_stop_all_for_address(vc):
-    """stop_all_for_address(addr): every entry of addr is removed, its timer cancelled and
-    its expiry callback called exactly once, immediately; other addresses are untouched"""
+    """stop_all_for_address(addr) with arbitrarily many entries under addr (loop contract):
+    the address is emptied before anything is reported; an arbitrary removed entry has its
+    timer cancelled and its expiry callback called exactly once, immediately; entries of
+    other addresses are untouched; nothing is deferred"""
     w = World(vc)
-    w.ts.stop_all_for_address(w.A)
-    exp = []
-    for slot, st in w.slots.items():
-        if slot[0] == w.A and st is not None:
-            exp.append(("expired", slot[1], w.A))
-            if st[1] is not None:
-                vc.check(st[1].cancelled_, "stop_all_for_address.timers_cancelled")
+    vc.arm_cut(SD.TimedStore.stop_all_for_address, 0)
+    o = vc.outcome(vc.body(SD.TimedStore.stop_all_for_address), w.ts, w.A)
+    vc.check(o.kind != "raise", "stop_all_for_address.never_raises")
     vc.check(not w.present(w.A, w.k0) and not w.present(w.A, w.k1), "stop_all_for_address.address_emptied")
     vc.check_eq(len(w.loop.ready), 0, "stop_all_for_address.defers_nothing")
-    vc.check_eq(len(w.events), len(exp), "stop_all_for_address.one_report_per_removed_entry")
-    for e in exp:
-        vc.check_eq(len([1 for x in w.events if x == e]), 1, "stop_all_for_address.each_removed_entry_reported_once")
-    if len(exp) == 2:
-        vc.cover("two-entries")
-    w.check_untouched("stop_all_for_address", [(w.A, w.k0), (w.A, w.k1)])
-    w.check_invariant("stop_all_for_address")
+    if vc.native:
+        n = len([1 for s, st in w.slots.items() if s[0] == w.A and st is not None])
+        vc.check(len(w.events) >= min(n, 1), "stop_all_for_address.reports_removed_entries")
+    elif vc.stashed("saa.entering"):
+        vc.cover("iteration")
+        entry, cb, handle = vc.stashed("saa.element")
+        vc.check_eq(w.events, [("expired", entry, w.A)], "stop_all_for_address.each_removed_entry_reported_exactly_once_immediately")
+        if handle is not None:
+            vc.cover("timer")
+            vc.check(handle.cancelled_, "stop_all_for_address.timers_cancelled")
+        vc.check(not w.present(w.A, entry), "stop_all_for_address.reported_entry_is_gone")
+    else:
+        vc.cover("exit")
+        vc.check_eq(w.events, [], "stop_all_for_address.nothing_reported_beyond_the_entries")
+    skip = [s for s in w.slots if s[0] == w.A]
+    w.check_untouched("stop_all_for_address", skip)
+    w.check_invariant("stop_all_for_address", skip_addr=w.A)
 
 
 def ob_stop_all(vc):
+    """stop_all(): for an arbitrary address, exactly stop_all_for_address; afterwards the
+    store is empty"""
     w = World(vc)
-    w.ts.stop_all()
-    n = len([1 for st in w.slots.values() if st is not None])
-    vc.check_eq(w.count_entries(), 0, "stop_all.store_emptied")
+    vc.arm_cut(SD.TimedStore.stop_all, 0)
+    o = vc.outcome(vc.body(SD.TimedStore.stop_all), w.ts)
+    vc.check(o.kind != "raise", "stop_all.never_raises")
     vc.check_eq(len(w.loop.ready), 0, "stop_all.defers_nothing")
-    vc.check_eq(len(w.events), n, "stop_all.one_report_per_removed_entry")
-    for st in w.slots.values():
-        if st is not None and st[1] is not None:
-            vc.check(st[1].cancelled_, "stop_all.timers_cancelled")
-    vc.check_eq(len(w.loop.live_timers()), 0, "stop_all.no_live_timer_left")
+    if vc.native:
+        vc.check_eq(len(w.ts.store), 0, "stop_all.store_emptied")
+        return
+    if o.kind == "ret":
+        vc.cover("exit")
+        vc.check_eq(len(w.ts.store), 0, "stop_all.store_emptied")
+        for slot in w.slots:
+            vc.check(not w.present(slot[0], slot[1]), "stop_all.no_entry_left")
+    elif vc.stashed("saa.entering"):
+        vc.cover("entry")
+        entry, cb, handle = vc.stashed("saa.element")
+        vc.check_eq(w.events, [("expired", entry, vc.stashed("sa.addr"))], "stop_all.each_entry_reported_exactly_once_immediately")
+        if handle is not None:
+            vc.check(handle.cancelled_, "stop_all.timers_cancelled")
+    else:
+        vc.cover("address-done")
+        vc.check_eq(w.events, [], "stop_all.nothing_reported_beyond_the_entries")
+        a = vc.stashed("sa.addr")
+        vc.check(not w.present(a, w.k0) and not w.present(a, w.kx), "stop_all.address_emptied")
 
 
-def ob_entries(vc):
-    w = World(vc)
-    got = list(w.ts.entries())
-    n = len([1 for st in w.slots.values() if st is not None])
-    vc.check_eq(len(got), n, "entries.lists_every_entry_once")
+STORE_OBLIGATIONS = [ob_refresh, ob_refresh_rejected, ob_stop, ob_expired, ob_stop_all_for_address, ob_stop_all]
 
-
-STORE_OBLIGATIONS = [ob_refresh, ob_refresh_rejected, ob_stop, ob_expired, ob_stop_all_for_address, ob_stop_all, ob_entries]
-
-BOUNDED = [
-    "TimedStore contents: the entry under consideration (absent / timer / infinite TTL) plus at most one other entry under the same address and one under another address; keys, addresses, TTLs, deadlines and the clock symbolic"
-]
+BOUNDED = []
